@@ -41,8 +41,8 @@ func VerifC08(nThin, withBackground, sendBuffer int) {
 		go bg.run(w, w.cfg)
 	}
 	kind := vChoice("calltype", ckN)
-	if withBackground == 1 && (kind == ckAsync || kind == ckCorrectable || kind == ckCorrStream || kind == ckMulticastNoWait || kind == ckUnicastNoWait) {
-		vAssume(false) // the queue-behind-a-stuck-write scenario is explored for the blocking call types
+	if withBackground == 1 && (kind == ckAsync || kind == ckCorrectable || kind == ckCorrStream) {
+		vAssume(false) // the queue-behind-a-stuck-write scenario: blocking call types and no-send-waiting one-way calls
 	}
 	c := fsNewCall(kind, 1, 0)
 	go c.run(w, w.cfg)
